@@ -71,7 +71,7 @@ def main():
   props = props_arg or [prop]
   verdicts = {}
   for p in props:
-    r = sh(f"cd /verif && /venv/bin/python -m ttverif check {p} --root {VAL}/src/main/python")
+    r = sh(f"cd {os.environ.get('TTV_VERIF', '/verif')} && /venv/bin/python -m ttverif check {p} --root {VAL}/src/main/python")
     lines = [l.strip() for l in r.stdout.splitlines() if l.strip().startswith("violated:") or "ANALYSIS-ERROR" in l]
     verdicts[p] = {"rc": r.returncode, "fired": lines[:6]}
   out["checks"] = verdicts
